@@ -4,6 +4,7 @@ the stable baseline tests still pass with it.  Writes/updates seeded/<dir>/meta.
 usage: confirm_mutant.py <dir> <property> <demo test name> "<what it needs to manifest>" """
 import json, os, re, subprocess, sys, shutil
 d, prop, demo, needs = sys.argv[1:5]
+pkg = sys.argv[5] if len(sys.argv) > 5 else "compiler"
 S = "/verif/seeded/" + d
 WT = "/tmp/confirm/" + d
 env = dict(os.environ, CARGO_NET_OFFLINE="true", CARGO_TARGET_DIR="/tmp/confirm/target")
@@ -17,9 +18,10 @@ rc, out = sh("git -C /repo worktree add -q --detach %s HEAD" % WT, cwd="/")
 assert rc == 0, out
 meta = {"property": prop, "needs_to_manifest": needs, "ran": []}
 try:
+    shutil.copytree(S, WT + "/_mutant")
     if os.path.exists(S + "/demo.diff"):
         rc, out = sh("git apply %s/demo.diff" % S); assert rc == 0, out
-    cmd = "cargo test -p compiler --offline --test %s 2>&1 | grep -E '^test |test result'" % demo
+    cmd = "cargo test -p %s --offline --test %s 2>&1 | grep -E '^test |test result'" % (pkg, demo)
     rc0, out0 = sh(cmd)
     without_ok = "test result: ok" in out0
     rc, out = sh("git apply %s/patch.diff" % S); assert rc == 0, "patch does not apply: " + out
